@@ -313,7 +313,7 @@ class WCSImageCatalog(object):
             the intersection of this `WCSImageCatalog` and `wcsim`.
 
         """
-        if isinstance(wcsim, (WCSImageCatalog, WCSGroupCatalog)):
+        if isinstance(wcsim, (WCSImageCatalog, WCSGroupCatalog, RefCatalog)):
             return self._polygon.intersection(wcsim.polygon)
         else:
             return self._polygon.intersection(wcsim)
@@ -636,7 +636,7 @@ class WCSGroupCatalog(object):
             the intersection of this `WCSGroupCatalog` and `wcsim`.
 
         """
-        if isinstance(wcsim, (WCSGroupCatalog, WCSImageCatalog)):
+        if isinstance(wcsim, (WCSGroupCatalog, WCSImageCatalog, RefCatalog)):
             return self._polygon.intersection(wcsim.polygon)
         else:
             return self._polygon.intersection(wcsim)
